@@ -181,14 +181,20 @@ func main() {
 	cases := readCases(os.Args[2])
 	for _, c := range cases {
 		fmt.Fprintln(out, c[0])
-		switch mode {
-		case "write":
-			runWrite(c[1:])
-		default:
-			if !dispatchMore(mode, c[1:]) {
-				fmt.Fprintln(os.Stderr, "unknown mode", mode)
-				os.Exit(2)
+		out.Flush()
+		alloc := allocDelta(func() {
+			switch mode {
+			case "write":
+				runWrite(c[1:])
+			default:
+				if !dispatchMore(mode, c[1:]) {
+					fmt.Fprintln(os.Stderr, "unknown mode", mode)
+					os.Exit(2)
+				}
 			}
+		})
+		if os.Getenv("VERIF_ALLOC") == "1" {
+			fmt.Fprintf(out, "allocated %d\n", alloc)
 		}
 		fmt.Fprintln(out, "end")
 		out.Flush()
